@@ -511,6 +511,10 @@ def real_run(world, run):
         except Exception as e:
             res['outcome'] = 'raw:' + type(e).__name__
             return res
+        if fh is not None:
+            # the caller's file object is the caller's: closed as soon as the constructor returns (auxiliary files are read later)
+            fh.close()
+            fh = None
         res['member'] = c.filename
         res['snap'] = snapshot(c)
         for im in c.images:
